@@ -56,8 +56,8 @@ fn elem_bytes(rng: &mut StdRng, pool: &Pool, nlimbs: usize) -> Vec<u8> {
     for i in 0..nlimbs {
         let l = match class {
             0 => limb(rng, pool, true),                                          // sparse
-            1 => if i == nlimbs - 1 { limb(rng, pool, false) } else { vec![0u8; 32] }, // subfield Fq (last limb = constant term)
-            2 => if i >= nlimbs - 2 { limb(rng, pool, false) } else { vec![0u8; 32] }, // subfield Fq2
+            1 => if i + 1 == nlimbs { limb(rng, pool, false) } else { vec![0u8; 32] }, // subfield Fq (last limb = constant term)
+            2 => if i + 2 >= nlimbs { limb(rng, pool, false) } else { vec![0u8; 32] }, // subfield Fq2
             3 => if i >= nlimbs.saturating_sub(4) { limb(rng, pool, false) } else { vec![0u8; 32] }, // subfield Fq4 (for Fq12)
             _ => limb(rng, pool, false),
         };
@@ -126,7 +126,7 @@ pub fn run(a: &Args, out: &mut Out) {
         // EQUAL operands (the same value in two variables), or operands differing in one F_q coefficient only
         let xb = match rng.gen_range(0..12) {
             0 => xa.clone(),
-            1 => { let mut t = xa.clone(); let l = 32 * rng.gen_range(0..12); t[l..l + 32].copy_from_slice(&elem_bytes(&mut rng, &poolq, 1)[..32]); t }
+            1 => { let mut t = xa.clone(); let l = 32 * rng.gen_range(0..12); t[l..l + 32].copy_from_slice(&limb(&mut rng, &poolq, false)[..32]); t }
             _ => xb,
         };
         // inversion, powering, sparse multiplication and the final exponentiations see the special elements half of the time
